@@ -1401,7 +1401,8 @@ def corr_codec(seed, tier):
     R = Result("codec")
     rng = np.random.default_rng(7000 + seed)
     vals = ["", "True", "None", "[1, 2]", "{'a': 1}", "{", "[", "[unclosed", "{'a'", "False ", " True", "x", "1", "nan", "(1,)", None, True, False,
-            [], {}, [1, [2, None]], {"a": {"b": [True]}}, 0, -3, 1.5, float("inf"), "[1, 2", "Truex", "{}", "[]", "None ", "{1, 2}", "[a]"]
+            [], {}, [1, [2, None]], {"a": {"b": [True]}}, 0, -3, 1.5, float("inf"), "[1, 2", "Truex", "{}", "[]", "None ", "{1, 2}", "[a]",
+            "[m s-1]", "{0 deg .. 360 deg}", "[1 2]", "{a: b}", "[1,, 2]", "{'a' 1}"]
     for i in range({"quick": 40, "thorough": 600, "search": 200}[tier]):
         vals.append(gen_value(rng, int(rng.integers(0, 3))))
     reqs, exps = [], []
